@@ -462,6 +462,42 @@ class Body:
             return self._origin_place(x, depth, seen)
         return ('unknown',)
 
+    def origin_on_path(self, x, path):
+        """origin of x as seen at the end of the (acyclic) block sequence `path`: a local assigned in several blocks takes the
+        value of its last assignment on the path instead of a phi"""
+        self._path = {bb: i for i, bb in enumerate(path)}
+        try:
+            return self.origin(x)
+        finally:
+            self._path = None
+
+    def ret_on_path(self, path, local=0):
+        """the value the return slot (or `local`) holds at the end of `path`"""
+        pos = {bb: i for i, bb in enumerate(path)}
+        on = [d for d in self.defs().get(local, []) if d[1] in pos]
+        if not on:
+            return ('unset',)
+        d = max(on, key=lambda d_: (pos[d_[1]], d_[2] if d_[0] == 'stmt' else 1 << 30))
+        self._path = pos
+        try:
+            return self._origin_def(d, 0, {local})
+        finally:
+            self._path = None
+
+    def writes_on_path(self, path, pred):
+        """[(bb, i, stmt, value term)] for projected-place assignments on the path whose place satisfies pred"""
+        pos = {bb: i for i, bb in enumerate(path)}
+        out = []
+        self._path = pos
+        try:
+            for bb in path:
+                for i, st in enumerate(self.blocks[bb]['stmts']):
+                    if 'p' in st and st['p'].get('pr') and pred(st['p']):
+                        out.append((bb, i, st, self._origin_def(('stmt', bb, i, st['rv']), 0, set())))
+        finally:
+            self._path = None
+        return out
+
     def _origin_place(self, p, depth, seen):
         base = self._origin_local(p['l'], depth + 1, seen)
         for e in p.get('pr', []):
@@ -502,6 +538,12 @@ class Body:
         ds = self.defs().get(l, [])
         if len(ds) == 0:
             return ('local', l)
+        pth = getattr(self, '_path', None)
+        if len(ds) > 1 and pth:
+            on = [d for d in ds if d[1] in pth]
+            if on:
+                d = max(on, key=lambda d_: (pth[d_[1]], d_[2] if d_[0] == 'stmt' else 1 << 30))
+                return self._origin_def(d, depth + 1, seen | {l})
         if len(ds) > 1:
             seen2 = seen | {l}
             terms = []
@@ -1208,6 +1250,67 @@ def decision_rows(body, start, effects, relevant=None, limit=50000, stop=None):
         else:
             for s in feas:
                 stack.append((s, cons, fk))
+    return rows
+
+
+def path_rows(body, start=0, relevant=None, stop=None, limit=20000, meta=None):
+    """enumerate the feasible acyclic paths from `start` to a return (or a block in `stop`): list of (constraints, path)
+    where constraints are as in decision_rows and path is the list of blocks.  Path-sensitive as reach_ps.  `meta`, if a dict,
+    receives subject -> [(value, variant name)] for discriminant subjects."""
+    stop = set(stop or ())
+    rows = []
+    n = 0
+    stack = [(start, (), frozenset(), (start,))]
+    while stack:
+        bb, cons, ks, path = stack.pop()
+        n += 1
+        if n > limit:
+            raise CheckError('UNRECOGNISED: more than %d paths in %s' % (limit, body.path))
+        t = body.term(bb)
+        if t['k'] == 'ret' or bb in stop:
+            rows.append((cons, list(path)))
+            continue
+        know, feas = body._ps_step(bb, dict(ks))
+        fk = frozenset(know.items())
+        nxt = []
+        if t['k'] == 'switch':
+            o = simplify(body.origin(t['on']))
+            subj, mode, cv = classify_test(o)
+            if meta is not None and o and o[0] == 'discr' and len(o) > 2 and o[2]:
+                meta[subj] = o[2]
+            rel = relevant(subj) if relevant else True
+            edges = body.switch_edges(bb)
+            armvals = tuple(sorted(v for v, _ in t['arms']))
+            for tgt, vals in edges.items():
+                if tgt not in feas or (vals == ['else'] and body.else_infeasible(bb)):
+                    continue
+                if not rel:
+                    nxt.append((tgt, cons))
+                    continue
+                if mode == 'direct':
+                    if vals == ['else']:
+                        c = (subj, 'notin', armvals)
+                    elif 'else' in vals:
+                        c = None
+                    else:
+                        c = (subj, '==', vals[0]) if len(vals) == 1 else (subj, 'in', tuple(sorted(vals)))
+                else:
+                    truth = None
+                    if vals == ['else']:
+                        truth = True if 0 in armvals else (False if armvals else None)
+                    elif 'else' not in vals:
+                        truth = True if all(v != 0 for v in vals) else (False if all(v == 0 for v in vals) else None)
+                    c = None if truth is None else (subj, '==' if ((mode == 'eq') == truth) else '!=', cv)
+                newc = cons if c is None else add_constraint(cons, c)
+                if newc is False:
+                    continue
+                nxt.append((tgt, newc))
+        else:
+            nxt = [(s_, cons) for s_ in feas]
+        for tgt, c2 in nxt:
+            if tgt in path:
+                continue  # acyclic paths only
+            stack.append((tgt, c2, fk, path + (tgt,)))
     return rows
 
 
